@@ -568,6 +568,7 @@ def replay(path: str) -> int:
         data = json.load(f)
     pid = data["property_id"]
     mod = importlib.import_module(f"vt.props.{pid.lower()}")
+    _quiet_stderr()
     res = evaluate(mod, data["spec"])
     known = load_known(pid)
     code = 0
